@@ -637,30 +637,23 @@ impl Prop for FromPath {
         outs.push(Out::End);
         crate::light::compare(&m, &outs, false)?;
         let events = log.borrow().clone();
-        if max_e + 1 < (1 << 16) {
-            ensure!(
-                events.is_empty(),
-                format!("{}/from_path/growth-although-every-record-fits", f),
-                "every record of the file fits the documented default buffer of 64 KiB (largest extent {}), but the policy was asked to grow: {:?}",
-                max_e,
-                events.iter().take(3).collect::<Vec<_>>()
-            );
-        } else {
-            ctx.class("a record larger than the default buffer");
-            if let Some(e) = events.first() {
-                ensure!(e.current == (1 << 16), format!("{}/from_path/initial-capacity", f), "the first growth request reports a capacity of {} instead of the default 65536", e.current);
-            }
-            for e in &events {
-                ensure!(
-                    needs(&m, &c.input, e.delivered, e.current) != Some(false),
-                    format!("{}/from_path/unnecessary-growth", f),
-                    "grow_to({}) while parsing record {} whose extent fits the current buffer",
-                    e.current,
-                    e.delivered
-                );
-            }
+        // every request must be justified by the group being parsed (a record, or the invalid / truncated group the
+        // input ends with) not fitting the current buffer; the first one reports the documented default capacity
+        if let Some(e) = events.first() {
+            ctx.class("a group larger than the default buffer");
+            ensure!(e.current == (1 << 16), format!("{}/from_path/initial-capacity", f), "the first growth request reports a capacity of {} instead of the default 65536", e.current);
         }
-        if c.sets && max_e + 1 < (1 << 16) {
+        for e in &events {
+            ensure!(
+                needs(&m, &c.input, e.delivered, e.current) != Some(false),
+                format!("{}/from_path/growth-although-every-record-fits", f),
+                "grow_to({}) while parsing group {} (largest record extent {}), which fits the current buffer",
+                e.current,
+                e.delivered,
+                max_e
+            );
+        }
+        if c.sets && events.is_empty() {
             // the set's buffer is a copy of the reader's buffer: it stays in the order of the default capacity
             ensure!(
                 max_set_cap <= (1 << 17),
